@@ -21,6 +21,7 @@ IntS = z3.IntSort()
 
 
 def register(R, tier="quick"):
+    register_docs_for_query(R)
     # ------------------------------------------------------------------ Searcher.up_to_date / refresh
     def mk_searcher(I):
         latest, mine = z3.Int("latest_generation"), z3.Int("reader_generation")
@@ -147,3 +148,120 @@ def register(R, tier="quick"):
                          Canary("matches-deleted-documents-too", "s.docs_for_query(q, for_deletion=True)", "s.docs_for_query(q)")],
                note="delete_by_query marks exactly the documents the query matches on the committed index (asking for the "
                     "for_deletion view), each once, and reports how many")
+
+
+def register_docs_for_query(R):
+    """C01 / C06 / C07 — Searcher.docs_for_query: over a multi-segment searcher every segment's matches (q.docs(s), or
+    q.deletion_docs(s) when the numbers are wanted for deletion) are yielded in segment order with that segment's document
+    offset added, each once: K(j) = number of matches in the first j segments (defining equation instantiated where used)."""
+    from pyvc.values import SpecFn
+    DOC = z3.Function("dfq_doc", IntS, IntS, IntS)       # (segment, k) -> local number of the k-th match (q.docs)
+    DDOC = z3.Function("dfq_deletion_doc", IntS, IntS, IntS)   # the same for q.deletion_docs (a different list in general)
+    NDOC = z3.Function("dfq_ndocs", IntS, IntS)          # segment -> number of matches
+    OFF = z3.Function("dfq_offset", IntS, IntS)
+    K = z3.Function("dfq_before", IntS, IntS)
+
+    class SegDocs(Abstract):
+        def __init__(self, j, fn):
+            self.j = to_z3(j)
+            self.fn = fn
+
+        def havoc(self, I):
+            pass
+
+        def iter_protocol(self, I):
+            return 0, NDOC(self.j), 1, (lambda i: self.fn(self.j, to_z3(i)))
+
+    class Sub(Abstract):
+        def __init__(self, j):
+            self.j = to_z3(j)
+
+        def havoc(self, I):
+            pass
+
+    class Subs(Abstract):
+        def __init__(self, I, empty):
+            self.n = z3.IntVal(0) if empty else z3.Int(I.fresh_name("nsub"))
+            if not empty:
+                I.assume(self.n >= 1)
+
+        def havoc(self, I):
+            pass
+
+        def __deepcopy__(self, memo):
+            return self
+
+        def truth(self, I):
+            return self.n > 0
+
+        def iter_protocol(self, I):
+            return 0, self.n, 1, (lambda j: (Sub(j), OFF(to_z3(j))))
+
+    class Q(Abstract):
+        def __init__(self):
+            self.used = []
+
+        def havoc(self, I):
+            pass
+
+        def m_docs(self, I, s):
+            self.used.append("docs")
+            return SegDocs(s.j if isinstance(s, Sub) else -1, DOC)
+
+        def m_deletion_docs(self, I, s):
+            self.used.append("deletion_docs")
+            return SegDocs(s.j if isinstance(s, Sub) else -1, DDOC)
+
+    def setup(I, multi, for_deletion):
+        subs = Subs(I, empty=not multi)
+        q = Q()
+        j = z3.Int("dfq_j")
+        I.assume(z3.ForAll([j], NDOC(j) >= 0))
+        I.assume(K(0) == 0)
+        I.ghost["dfq"] = (subs, q)
+        s = Obj(I.repo.klass(SR, "Searcher"), {"subsearchers": subs})
+        return {"self": s, "q": q, "for_deletion": for_deletion, "multi": multi}
+
+    def before(I, j):
+        j = to_z3(j)
+        I.assume(K(j + 1) == K(j) + NDOC(j))
+        return K(j)
+
+    def good_yield_multi(I, y, j, i):
+        j, i = to_z3(j), to_z3(i)
+        fn = DDOC if I.root_frame.env["for_deletion"] else DOC
+        return to_z3(y) == fn(j, i) + OFF(j)
+
+    def good_yield_single(I, y, i):
+        return to_z3(y) == DOC(-1, to_z3(i))
+
+    def post(I, env):
+        subs = I.ghost["dfq"][0]
+        q = env["q"]
+        ok = I.ghost["ok"]
+        ok = z3.BoolVal(ok) if isinstance(ok, bool) else ok
+        want = "deletion_docs" if env["for_deletion"] else "docs"
+        used_ok = all(u == want for u in q.used) and (len(q.used) >= 1 or env["multi"])
+        total = before(I, subs.n) if env["multi"] else NDOC(-1)
+        return z3.And(ok, to_z3(I.ghost["ny"]) == total, z3.BoolVal(used_ok))
+
+    R.contract(SR + ":Searcher.docs_for_query", props=["C01", "C06", "C07"], setup=setup,
+               variants=[dict(multi=True, for_deletion=False), dict(multi=True, for_deletion=True)],
+               spec_funcs={"good_yield": SpecFn("good_yield", good_yield_multi), "before": SpecFn("before", before)},
+               ghost="ok = True\nny = 0\n", on_yield="ok = ok and good_yield(_y, _j, _i)\nny = ny + 1\n",
+               ensures=[post],
+               loops={0: LoopSpec(index="_j", inv=["ok", "ny == before(_j)", lambda I, env: to_z3(env["_j"]) <= I.ghost["dfq"][0].n],
+                                  havoc=["ok", "ny"]),
+                      1: LoopSpec(index="_i", inv=["ok", "ny == before(_j) + _i", lambda I, env: to_z3(env["_i"]) <= NDOC(to_z3(env["_j"]))],
+                                  havoc=["ok", "ny"])},
+               canaries=[Canary("offset-forgotten", "docnum + offset", "docnum"),
+                         Canary("deletion-view-ignored", "method = q.deletion_docs", "method = q.docs")],
+               note="global document numbers of a query's matches = each segment's local numbers plus that segment's offset, every "
+                    "segment in order, every match once; for_deletion selects the query's deletion view")
+    R.contract(SR + ":Searcher.docs_for_query", label=SR + ":Searcher.docs_for_query#single-segment", props=["C01", "C06", "C07"],
+               setup=lambda I: setup(I, False, False),
+               spec_funcs={"good_yield": SpecFn("good_yield", good_yield_single)},
+               ghost="ok = True\nny = 0\n", on_yield="ok = ok and good_yield(_y, _i)\nny = ny + 1\n",
+               ensures=[post],
+               loops={2: LoopSpec(index="_i", inv=["ok", "ny == _i", lambda I, env: to_z3(env["_i"]) <= NDOC(-1)], havoc=["ok", "ny"])},
+               note="a searcher without sub-searchers yields its own matches unchanged")
